@@ -167,7 +167,7 @@ def run_exec(tape):
     prof = gen_mod.profile(max_nodes=6, max_depth=2, p_meas=700, p_logs=600, p_attach=100, p_diag=150, p_dur=300,
                            p_fault_beh=200, p_plug=150, p_test_start=150, p_monitor=300, max_meas=5)
   else:
-    prof = gen_mod.profile(max_nodes=6, max_depth=2, p_meas=400, p_logs=400, p_dur=200, p_fault_beh=250, p_plug=200,
+    prof = gen_mod.profile(max_nodes=6, max_depth=2, p_meas=700, max_meas=4, p_logs=700, p_dur=200, p_fault_beh=250, p_plug=200,
                            p_timeout=150, abort=500, abort2=200, p_test_start=200, plug_faults=150)
   spec = gen_mod.Gen(tape, prof).program()
   n_w = 1 + tape.draw(2, 'n_watchers')
@@ -194,6 +194,9 @@ def run_exec(tape):
         # a monitor thread assigns its samples through one retained measurement handle
         bad = {'clause': 'monitor_sample_not_notified', 'details': {'samples_taken': val,
                                                                    'watcher_sees': len(view['meas'].get(name) or ())}}
+      elif (kind == 'dimmeas' and view['phase'] == phase and not val[2]
+            and [val[0], val[1]] not in [list(x) for x in (view['meas'].get(name) or ())]):
+        bad = {'clause': 'dimensioned_override_not_notified', 'details': {'watcher_sees': repr(view['meas'].get(name))[:60]}}
       if bad is not None and not viols:
         viols.append(bad)
 
